@@ -5,7 +5,7 @@ panic raised from a write of the operation body) at the k-th file-system call. V
 directory snapshots; every faulted run's os-call trace is additionally replayed through the TLA+ monitor
 spec/FSTrace.tla (POSIX model) which evaluates CleanFailure on the model state and cross-checks model vs real."""
 import json, os, shutil, collections
-import vlib, fsmon
+import vlib, fsmon, fsfamily
 
 META = {
     "level": "fault_enumeration",
@@ -20,55 +20,20 @@ META = {
 
 
 def run(ctx):
+    rows, summ, st, sample = fsfamily.run_mode(ctx, "c01")
     ev = ctx.ev
-    binp = vlib.build_bin("fsops")
-    d = vlib.scratch_dir()
-    try:
-        runs, trace = os.path.join(d, "runs.ndjson"), os.path.join(d, "trace.ndjson")
-        p = vlib.sh([binp, "c01", "--runs", runs, "--trace", trace, "--tier", ctx.tier, "--seed", str(ctx.seed)],
-                    timeout=3000, env=dict(os.environ, VERIF_SANDBOX_BASE=d))
-        summ = json.loads([l for l in p.stdout.splitlines() if l.startswith("SUMMARY ")][-1][8:])
-        rows = vlib.read_ndjson(runs)
-        if not rows:
-            raise vlib.HarnessError("fsops produced no runs")
-        skipped_ops = sorted({s.split("/")[0] for s in summ.get("skipped", [])})
-        points = set()
-        by_t = {}
-        for r in rows:
-            by_t[r["t"]] = r
-            points.add((r["op"], r["cfg"], r["kind"], r["at"].split(" ")[0], r["k"]))
-            if r["verdict"] == "violation":
-                ctx.report(r["key"], "%s [%s] fault=%s at call %d (%s): %s" % (r["op"], r["cfg"], r["kind"], r["k"], r["at"], r["why"]), r)
-            elif r["verdict"] == "finding":
-                ctx.report(r["key"], "%s [%s] fault=%s at call %d (%s): %s" % (r["op"], r["cfg"], r["kind"], r["k"], r["at"], r["why"]), r)
-        # TLC monitor over every recorded trace
-        res, st = fsmon.validate(trace)
-        drift = []
-        for x in res:
-            r = by_t.get(x["t"], {})
-            if x["inv"] in fsmon.BINDING:
-                drift.append(x)
-                continue
-            if r.get("verdict") in ("violation", "finding"):
-                continue    # already reported from the real snapshots
-            ctx.report("%s|%s|%s|monitor:%s" % (r.get("op"), r.get("cfg"), r.get("kind"), x["inv"]),
-                       "FSTrace invariant %s fails on the trace of %s (fault %s at call %s)" % (x["inv"], x["name"], r.get("kind"), r.get("k")),
-                       {"run": r, "line": x["line"]})
-        if drift and not ctx.violations:
-            raise vlib.HarnessError("FSTrace model disagrees with the real file system (%s) on trace %s; model or recorder needs correction"
-                                    % (drift[0]["inv"], drift[0]["name"]))
-        ev.cov(evaluations=len(rows), distinct_nontrivial=len(points),
-               rule="one evaluation = one real execution of a catalogued api.*File operation in a fresh sandbox with one injected fault "
-                    "(kind in error/short/panic) at call k; distinct = distinct (operation, path configuration, fault kind, call type, k); "
-                    "all are non-trivial (the fault is really taken: the run fails or tolerates it)",
-               states=st["states"], transitions=st["transitions"], traces_validated_against_impl=st["traces"],
-               operations=summ["ops"], skipped=summ.get("skipped", []), outcomes=dict(collections.Counter(r["outcome"] for r in rows)),
-               monitor_binding_drift=len(drift), exhaustive=(ctx.tier == "thorough"))
-        for r in rows[:3]:
-            ev.sample({k: r[k] for k in ("op", "cfg", "k", "kind", "at", "outcome", "diff", "verdict")})
-        ev.sample(vlib.read_ndjson(trace)[1])
-        ev.assume("single faults only; EIO for errors, ENOSPC after half the bytes for short writes; a panic is raised only from write calls of the operation body",
-                  "operations skipped because they need user fonts with the configuration directory disabled: " + ", ".join(skipped_ops),
-                  "api.PatchFile and the incremental (incr=true) annotation variants are not in the catalog (in-place mutation is their contract)")
-    finally:
-        shutil.rmtree(d, ignore_errors=True)
+    points = {(r["op"], r["cfg"], r["kind"], r["at"].split(" ")[0], r["k"]) for r in rows}
+    skipped_ops = sorted({s.split("/")[0] for s in summ.get("skipped", [])})
+    ev.cov(evaluations=len(rows), distinct_nontrivial=len(points),
+           rule="one evaluation = one real execution of a catalogued api.*File operation in a fresh sandbox with one injected fault "
+                "(kind in error/short/panic) at call k; distinct = distinct (operation, path configuration, fault kind, call type, k); "
+                "all are non-trivial (the fault is really taken: the run fails or tolerates it)",
+           states=st["states"], transitions=st["transitions"], traces_validated_against_impl=st["traces"],
+           operations=summ["ops"], skipped=summ.get("skipped", []), outcomes=dict(collections.Counter(r["outcome"] for r in rows)),
+           monitor_binding_drift=st["drift"], exhaustive=(ctx.tier == "thorough"))
+    for r in rows[:3]:
+        ev.sample({k: r[k] for k in ("op", "cfg", "k", "kind", "at", "outcome", "diff", "verdict")})
+    ev.sample(sample)
+    ev.assume("single faults only; EIO for errors, ENOSPC after half the bytes for short writes; a panic is raised only from write calls of the operation body",
+              "operations skipped because they need user fonts with the configuration directory disabled: " + ", ".join(skipped_ops),
+              "api.PatchFile and the incremental (incr=true) annotation variants are not in the catalog (in-place mutation is their contract)")
